@@ -231,7 +231,11 @@ func (li *loopInfo) innermost(b *ssa.BasicBlock) *ssa.BasicBlock {
 // verifyFunction builds the VC of one function under contract.
 func (p *Program) verifyFunction(fc *FuncContract, fn *ssa.Function) *VC {
 	vc := newVC(fc.Key(), p.ss)
-	vc.split = fc.Options["split"]
+	vc.split = fc.Options["split"] || fc.Options["split32"]
+	vc.splitMax = 8
+	if fc.Options["split32"] {
+		vc.splitMax = 32
+	}
 	x := &Exec{vc: vc, prog: p, ss: p.ss, maxInline: 3}
 	fr := x.newFrame(fn, 0)
 	fr.contract = fc
@@ -406,6 +410,9 @@ func (p *Program) verifyFunction(fc *FuncContract, fn *ssa.Function) *VC {
 		rm[names[i]] = resT[i]
 	}
 	for i, e := range fc.Ensures {
+		if e.Assumed {
+			continue
+		}
 		f, err := x.trBool(e.Expr, mkEnv(rm, est, exit))
 		if err != nil {
 			x.contractError(fr, e, err)
